@@ -4,7 +4,7 @@
     end disks: Model/C18_RoundSpec.v, reference hexahedron: Base/Hex.v.
     Gen/C18/Tables.v holds what RoundSolidFinder returned on the canonical round shapes and what
     ViewpointReorienter made of the 48 numberings of the unit cube in this run. *)
-From Coq Require Import List Bool Arith ZArith QArith Reals Permutation Lra Lia.
+From Coq Require Import List Bool Arith ZArith Reals Permutation Lra Lia.
 From CB Require Import Base.Hex Base.Vec3.
 From CB Require Import Model.C18_Finder Model.C18_RoundSpec Model.C18_Reorient.
 From CB Require Import Proofs.C18_Finder Proofs.C18_Reorient.
@@ -33,25 +33,33 @@ Definition C18_plane_invariant_stmt : Prop :=
     (In v (find_on_plane tol vs o' (vscale k n)) <-> In v (find_on_plane tol vs o n)).
 
 (** * 2. Round-shape finder *)
-Open Scope Q_scope.
+Open Scope Z_scope.
 
 (** the model of the round finder is exact: index i is returned by find_core iff vertex i is within TOL of
-    a point of a core face; find_shell is the set difference shell - core *)
+    a point of a core face; find_shell is the set difference shell - core.  Positions are integer
+    mantissas at a common unit, TOL = T units *)
 Definition C18_round_model_exact_stmt : Prop :=
-  forall (tol : Q) (vs : list qvec) (core shell : list (list qvec)) (i : nat),
-    (In i (find_core tol vs core) <->
-       exists v, nth_error vs i = Some v /\ exists f p, In f core /\ In p f /\ qdist2 v p < tol * tol)
-    /\ (In i (find_shell tol vs core shell) <-> In i (find_core tol vs shell) /\ ~ In i (find_core tol vs core)).
+  forall (T : Z) (vs : list zvec) (core shell : list (list zvec)) (i : nat),
+    (In i (find_core T vs core) <->
+       exists v, nth_error vs i = Some v /\ exists f p, In f core /\ In p f /\ zdist2 v p < T * T)
+    /\ (In i (find_shell T vs core shell) <-> In i (find_core T vs shell) /\ ~ In i (find_core T vs core)).
+
+(** ... and the integer comparison is the comparison of the real distance with the real tolerance *)
+Definition C18_round_near_real_stmt : Prop :=
+  forall (u : R) (T : Z) (p v : zvec), (0 < u)%R -> 0 < T ->
+    (zdist2 v p < T * T <-> (dist (zR u v) (zR u p) < IZR T * u)%R).
 
 (** for every tabulated round shape and end: the model returns what the implementation returned, and
-    that is exactly the set of inner vertices (core) / rim vertices (shell) of the end disk *)
+    that is exactly the set of inner vertices (core) / rim vertices (shell) of the end disk; the
+    tolerance of the row is the library's TOL = tol_m * 2^-tol_e *)
 Definition C18_core_shell_stmt : Prop :=
   (forall c, In c round_tab ->
      find_core (rc_tol c) (rc_verts c) (rc_core c) = rc_found_core c
      /\ find_shell (rc_tol c) (rc_verts c) (rc_core c) (rc_shell c) = rc_found_shell c
      /\ select_idx (is_inner (rc_center c) (rc_normal c) (rc_radius c)) (rc_verts c) 0 = rc_found_core c
      /\ select_idx (is_rim (rc_center c) (rc_normal c) (rc_radius c)) (rc_verts c) 0 = rc_found_shell c
-     /\ (3 <= length (rc_found_shell c))%nat /\ rc_tol c = tol_q)
+     /\ (3 <= length (rc_found_shell c))%nat
+     /\ 0 < rc_tol c /\ tol_e <= rc_exp c /\ rc_tol c = tol_m * 2 ^ (rc_exp c - tol_e))
   /\ length round_tab = 12%nat.
 
 (** * 3. Viewpoint re-orienter *)
@@ -135,75 +143,32 @@ Definition C18_grouping_partial_stmt : Prop :=
   forall (N : side -> vec) (n : vec) (s s' : side),
     orthoframe N -> norm2 n = 1 -> s <> s' -> half_sqrt2 < dot n (N s) -> dot n (N s') < half_sqrt2.
 
-(** * Proofs *)
-
-Lemma norm_pos_nonzero n : n <> vzero -> 0 < norm n.
-Proof.
-  intros H. apply norm_pos_of_norm2. destruct n as [[x y] z]. vec_simpl.
-  destruct (Req_dec x 0) as [Hx|Hx]; [|nra]. destruct (Req_dec y 0) as [Hy|Hy]; [|nra].
-  destruct (Req_dec z 0) as [Hz|Hz]; [|nra]. exfalso. apply H. subst. reflexivity.
-Qed.
+(** * Proofs (everything that does not depend on the tables is in Proofs/C18_*.v) *)
 
 Theorem C18_sphere : C18_sphere_stmt.
-Proof. intros tol vs p radius v. exact (find_by_position_spec tol vs p radius v). Qed.
+Proof. exact find_by_position_spec. Qed.
 
 Theorem C18_plane : C18_plane_stmt.
-Proof.
-  intros tol vs o n v Hn. exact (find_on_plane_spec tol vs o n v (norm_pos_nonzero n Hn)).
-Qed.
+Proof. exact find_on_plane_exact. Qed.
 
 Theorem C18_plane_invariant : C18_plane_invariant_stmt.
-Proof.
-  intros tol vs o o' n v k Hn Hk Ho. pose proof (norm_pos_nonzero n Hn) as Hp.
-  rewrite (find_on_plane_scale tol vs o' n k v Hk Hp).
-  rewrite !find_on_plane_spec by exact Hp. rewrite (plane_dist_origin o o' n v Ho). reflexivity.
-Qed.
+Proof. exact (fun tol vs o o' n v k => find_on_plane_invariant tol vs o o' n v k). Qed.
 
 Theorem C18_round_model_exact : C18_round_model_exact_stmt.
-Proof.
-  intros tol vs core shell i. split.
-  - exact (find_core_spec tol vs core i).
-  - exact (find_shell_is_difference tol vs core shell i).
-Qed.
+Proof. exact round_model_exact. Qed.
 
-Lemma nat_list_eqb_eq a : forall b, nat_list_eqb a b = true -> a = b.
-Proof.
-  unfold nat_list_eqb. induction a as [|x a IH]; intros [|y b] H; simpl in *; try reflexivity; try discriminate.
-  apply andb_true_iff in H. destruct H as [Hl H]. apply andb_true_iff in H. destruct H as [Hx H].
-  apply Nat.eqb_eq in Hx. subst. f_equal. apply IH. rewrite Hl. exact H.
-Qed.
-
-Definition Qeq_syntactic (a b : Q) : bool := Z.eqb (Qnum a) (Qnum b) && Pos.eqb (Qden a) (Qden b).
-
-Lemma Qeq_syntactic_eq a b : Qeq_syntactic a b = true -> a = b.
-Proof.
-  destruct a, b. unfold Qeq_syntactic. simpl. intros H. apply andb_true_iff in H. destruct H as [H1 H2].
-  apply Z.eqb_eq in H1. apply Pos.eqb_eq in H2. subst. reflexivity.
-Qed.
+Theorem C18_round_near_real : C18_round_near_real_stmt.
+Proof. exact znear_real. Qed.
 
 Theorem C18_core_shell : C18_core_shell_stmt.
 Proof.
   split; [|vm_compute; reflexivity].
-  assert (H : forallb (fun c => rc_model_ok c && rc_spec_ok c && (3 <=? length (rc_found_shell c))%nat
-                                && Qeq_syntactic (rc_tol c) tol_q) round_tab = true) by (vm_compute; reflexivity).
-  rewrite forallb_forall in H. intros c Hc. specialize (H c Hc).
-  apply andb_true_iff in H. destruct H as [H Ht]. apply andb_true_iff in H. destruct H as [H Hn].
-  apply andb_true_iff in H. destruct H as [Hm Hs].
-  unfold rc_model_ok in Hm. apply andb_true_iff in Hm. destruct Hm as [Hm1 Hm2].
-  unfold rc_spec_ok in Hs. apply andb_true_iff in Hs. destruct Hs as [Hs1 Hs2].
-  apply nat_list_eqb_eq in Hm1, Hm2, Hs1, Hs2. apply Nat.leb_le in Hn. apply Qeq_syntactic_eq in Ht.
-  repeat split; assumption.
+  assert (H : forallb (rc_row_ok tol_m tol_e) round_tab = true) by (vm_compute; reflexivity).
+  intros c Hc. exact (rc_row_ok_sound tol_m tol_e c (forallb_In _ _ H c Hc)).
 Qed.
 
 Theorem C18_numbering_table : C18_numbering_table_stmt.
-Proof.
-  intros k a b c Hk E c' Hc'. pose proof (corner_triple_ok_nth k Hk) as H. rewrite E in H.
-  unfold corner_triple_ok in H. rewrite forallb_forall in H.
-  specialize (H c' (proj1 (In_corners c') Hc')). apply eqb_prop in H. split.
-  - intros [H1 [H2 H3]]. rewrite H1, H2, H3 in H. simpl in H. symmetry in H. apply Nat.eqb_eq in H. exact H.
-  - intros ->. rewrite Nat.eqb_refl in H. apply andb_true_iff in H. destruct H as [H H3].
-    apply andb_true_iff in H. tauto.
-Qed.
+Proof. exact numbering_table. Qed.
 
 Definition xyz_list_eqb (a b : list (Z * Z * Z)) : bool :=
   (length a =? length b)%nat
@@ -225,12 +190,12 @@ Proof.
   - assert (H : forallb (fun po : list nat * option (list (Z * Z * Z)) =>
                   match snd po with Some o => xyz_list_eqb o xyz_table | None => false end) cube_tab = true)
       by (vm_compute; reflexivity).
-    rewrite forallb_forall in H. intros p out Hin. specialize (H _ Hin). simpl in H.
-    destruct out as [o|]; [|discriminate]. apply xyz_list_eqb_eq in H. subst. reflexivity.
+    intros p out Hin. pose proof (forallb_In _ _ H _ Hin) as H'. cbv beta in H'. cbn [snd] in H'.
+    destruct out as [o|]; [|discriminate]. apply xyz_list_eqb_eq in H'. subst. reflexivity.
   - assert (H : forallb (fun p => existsb (fun qo : list nat * option (list (Z * Z * Z)) => perm_eqb p (fst qo)) cube_tab) sym48 = true)
       by (vm_compute; reflexivity).
-    rewrite forallb_forall in H. intros p Hp. specialize (H p Hp). apply existsb_exists in H.
-    destruct H as [[q out] [Hin Hq]]. exists q, out. auto.
+    intros p Hp. pose proof (forallb_In _ _ H p Hp) as H'. cbv beta in H'. apply existsb_exists in H'.
+    destruct H' as [[q out] [Hin Hq]]. exists q, out. split; [exact Hin|exact Hq].
   - vm_compute. reflexivity.
 Qed.
 
@@ -238,65 +203,41 @@ Theorem C18_canonical : C18_canonical_stmt.
 Proof. exact assemble_geometric. Qed.
 
 Theorem C18_same_points : C18_same_points_stmt.
-Proof.
-  intros hull rank gl qs Hlen Hg Hb. pose proof (geometricb_sound gl _ Hb) as HG.
-  assert (Hp : is_perm8 gl = true).
-  { unfold geometricb in Hb. apply andb_true_iff in Hb. tauto. }
-  split.
-  - unfold reorient. rewrite Hlen. simpl. rewrite Hg. rewrite (assemble_geometric _ _ HG).
-    rewrite (map_nth_perm8 gl Hp). reflexivity.
-  - apply perm8_Permutation. exact Hp.
-Qed.
+Proof. exact reorient_same_points. Qed.
 
 Theorem C18_numbering_independent : C18_numbering_independent_stmt.
-Proof.
-  intros A G pos1 pos2 g1 g2 Q1 Q2 H1 H2 P1 P2.
-  rewrite (assemble_geometric _ _ H1), (assemble_geometric _ _ H2). simpl.
-  assert (E1 : map pos1 (map g1 corners) = map G corners).
-  { rewrite map_map. apply map_ext_in. intros c Hc. apply P1. apply In_corners. exact Hc. }
-  assert (E2 : map pos2 (map g2 corners) = map G corners).
-  { rewrite map_map. apply map_ext_in. intros c Hc. apply P2. apply In_corners. exact Hc. }
-  rewrite E1, E2. split; reflexivity.
-Qed.
+Proof. exact numbering_independent. Qed.
 
 Theorem C18_right_handed : C18_right_handed_stmt.
-Proof.
-  intros observer ceiling center Hgen N. unfold N. repeat split.
-  - apply frame_orthoframe. exact Hgen.
-  - apply frame_right_handed. exact Hgen.
-  - apply front_towards_observer. exact Hgen.
-  - apply top_towards_ceiling. exact Hgen.
-Qed.
+Proof. exact right_handed_frame. Qed.
 
 Theorem C18_grouping_partial : C18_grouping_partial_stmt.
 Proof. exact grouping_separation. Qed.
 
 (** the hypotheses are satisfiable *)
-Example C18_plane_hyp_sat : (1, 0, 0) <> vzero.
+Example C18_plane_hyp_sat : (1, 0, 0)%R <> vzero.
 Proof. intros H. inversion H. lra. Qed.
 
 Example C18_right_handed_hyp_sat :
-  0 < norm2 (cross (vsub (0, -10, 0) (0, 0, 0)) (vsub (0, 0, 10) (0, 0, 0))).
+  (0 < norm2 (cross (vsub (0, -10, 0) (0, 0, 0)) (vsub (0, 0, 10) (0, 0, 0))))%R.
 Proof. vec_simpl. lra. Qed.
 
 Example C18_canonical_hyp_sat : geometric (fun c => c) (fun s => side_corners s).
-Proof.
-  split; [intros; assumption|]. intros s. split.
-  - destruct s; vm_compute; repeat constructor; simpl; intuition discriminate.
-  - intros x. unfold side_corners. rewrite filter_In. split.
-    + intros [Hx Hon]. exists x. split; [apply In_corners; exact Hx|auto].
-    + intros [c [Hc [Hon E]]]. subst. split; [apply In_corners; exact Hc|exact Hon].
-Qed.
+Proof. exact geometric_id. Qed.
 
 Example C18_grouping_partial_hyp_sat :
   orthoframe (fun s => match s with Front => (0, -1, 0) | Back => (0, 1, 0) | Top => (0, 0, 1) | Bottom => (0, 0, -1)
-                                    | Left => (-1, 0, 0) | Right => (1, 0, 0) end).
-Proof. unfold orthoframe. repeat split; try (vec_simpl; ring); apply vec_eq; vec_simpl; ring. Qed.
+                                    | Left => (-1, 0, 0) | Right => (1, 0, 0) end)%R.
+Proof. exact example_orthoframe. Qed.
+
+Example C18_round_near_real_hyp_sat : (0 < powerRZ 2 (-76))%R /\ (0 < 7555786372591433)%Z.
+Proof. split; [apply powerRZ_lt; lra|reflexivity]. Qed.
 
 Print Assumptions C18_sphere.
 Print Assumptions C18_plane.
 Print Assumptions C18_plane_invariant.
 Print Assumptions C18_round_model_exact.
+Print Assumptions C18_round_near_real.
 Print Assumptions C18_core_shell.
 Print Assumptions C18_numbering_table.
 Print Assumptions C18_cube_table.
